@@ -29,7 +29,9 @@ CONSTANTS
     BUF,       \* bufio buffer size (4096 in the code, small in the model)
     ReadMode,  \* "single" (as found) | "full" (repaired)
     Wiring,    \* "tee_below_bufio" (the code) | "tee_above_bufio" (mutant)
-    Progs      \* set of parser programs quantified over
+    Progs,     \* set of parser programs quantified over
+    Deliv      \* delivery sizes the source may choose (besides "all that is asked for" and 0);
+               \* 0..MaxN for every schedule, a subset when behaviours are generated for replay
 
 VARIABLES
     n,         \* bytes the source will deliver in total
@@ -68,6 +70,7 @@ Init ==
 (* condition is reported by the same call (d = 0 forces it).               *)
 SrcRead(req, d, e) ==
     /\ d \in 0..Min(req, n - pulled)
+    /\ d \in Deliv \cup {0, Min(req, n - pulled)}
     /\ (d = 0) => (pulled = n /\ e)
     /\ e => (pulled + d = n)
     /\ pulled' = pulled + d
